@@ -441,6 +441,19 @@ func init() {
 	}
 	x["bytes.Compare"] = func(fr *frame, args []value) value {
 		a, b := byteTerms(args[0]), byteTerms(args[1])
+		if len(a) == len(b) {
+			a, b = groupBE(a, b)
+		} else if len(a) > len(b) {
+			pa, pb := groupBE(a[:len(b)], b)
+			if len(pa) < len(b) { // groups found in the common prefix: keep lengths ordered as before
+				a, b = append(pa, a[len(b):]...), pb
+			}
+		} else {
+			pb, pa := groupBE(b[:len(a)], a)
+			if len(pa) < len(a) {
+				a, b = pa, append(pb, b[len(a):]...)
+			}
+		}
 		n := len(a)
 		if len(b) < n {
 			n = len(b)
@@ -459,10 +472,30 @@ func init() {
 		}
 		return concretize(tail, types.Int)
 	}
+	x["(encoding/binary.bigEndian).PutUint64"] = func(fr *frame, args []value) value {
+		b := args[1].([]value)
+		if len(b) < 8 {
+			panic(targetPanic{"runtime error: index out of range"})
+		}
+		switch v := args[2].(type) {
+		case uint64:
+			for i := 0; i < 8; i++ {
+				b[i] = byte(v >> uint(8*(7-i)))
+			}
+		case SymInt:
+			for i := 0; i < 8; i++ {
+				b[i] = SymInt{&Term{Op: "be8", Args: []*Term{v.T}, Val: big.NewInt(int64(i))}, types.Uint8}
+			}
+		}
+		return nil
+	}
 	x["(encoding/binary.bigEndian).Uint64"] = func(fr *frame, args []value) value {
 		b := byteTerms(args[1])
 		if len(b) < 8 {
 			panic(targetPanic{"runtime error: index out of range"})
+		}
+		if g, ok := be8Group(b[:8]); ok {
+			return concretize(g, types.Uint64)
 		}
 		sum := KI(0)
 		for i := 0; i < 8; i++ {
@@ -727,7 +760,70 @@ func byteTerms(v value) []*Term {
 	return out
 }
 
+// be8Group recognises the 8-byte big-endian encoding of one term (or of a constant).
+func be8Group(b []*Term) (*Term, bool) {
+	if len(b) != 8 {
+		return nil, false
+	}
+	if b[0].Op == "be8" {
+		x := b[0].Args[0]
+		for i := 0; i < 8; i++ {
+			if b[i].Op != "be8" || b[i].Args[0] != x || b[i].Val.Int64() != int64(i) {
+				return nil, false
+			}
+		}
+		return x, true
+	}
+	v := new(big.Int)
+	for i := 0; i < 8; i++ {
+		if !b[i].IsK() {
+			return nil, false
+		}
+		v.Lsh(v, 8)
+		v.Or(v, b[i].Val)
+	}
+	return K(v), true
+}
+
+// groupBE rewrites two equal-length byte-term sequences so that aligned 8-byte
+// big-endian groups become single unsigned 64-bit terms (order-preserving).
+func groupBE(a, b []*Term) ([]*Term, []*Term) {
+	var oa, ob []*Term
+	for i := 0; i < len(a); {
+		if i+8 <= len(a) && i+8 <= len(b) && (a[i].Op == "be8" || b[i].Op == "be8") {
+			ga, oka := be8Group(a[i : i+8])
+			gb, okb := be8Group(b[i : i+8])
+			if oka && okb {
+				oa, ob = append(oa, ga), append(ob, gb)
+				i += 8
+				continue
+			}
+		}
+		if i < len(b) {
+			oa, ob = append(oa, a[i]), append(ob, b[i])
+		} else {
+			oa = append(oa, a[i])
+		}
+		i++
+	}
+	return oa, ob
+}
+
 func symBytesEq(a, b []value) value {
+	ta, tb := byteTerms(a), byteTerms(b)
+	ta, tb = groupBE(ta, tb)
+	acc := TBool(true)
+	for i := range ta {
+		c := Cmp("=", ta[i], tb[i])
+		if c.Op == "false" {
+			return false
+		}
+		acc = And(acc, c)
+	}
+	return sb(acc)
+}
+
+func symBytesEqOld(a, b []value) value {
 	acc := TBool(true)
 	for i := range a {
 		c := Cmp("=", termOfInt(a[i]), termOfInt(b[i]))
